@@ -55,7 +55,12 @@ MODEL_NEEDS_IMPL = True
 
 
 def model_requests(case, im):
-    reqs = c01.model_requests(case) if case['mode'] == '2d' else c02.model_requests(case)
+    extra = []
+    if case['mode'] == '2d':
+        reqs = c01.model_requests(case)
+    else:
+        reqs = c02.model_requests(case, im)
+        reqs, extra = reqs[:3], reqs[3:]          # the remove_resolved request goes last
     if isinstance(im, dict) and 'chi2' in im:
         n = len(im['chi2'])
         uns = [None] * n
@@ -64,12 +69,14 @@ def model_requests(case, im):
             for i, mid in enumerate(im['model_id']):
                 uns[mid] = im['chi2'][i]
             reqs.append(('rank', [[x if not math.isfinite(x) else F(x) for x in uns]]))
-    return reqs
+    if len(reqs) == (1 if case['mode'] == '2d' else 3):
+        reqs.append(('rank', [[]]))           # placeholder: the layout of the answers is fixed (base..., rank, remove_resolved)
+    return reqs + extra
 
 
 def judge(case, im, mo):
     nreq = 1 if case['mode'] == '2d' else 3
-    base = (c01.judge if case['mode'] == '2d' else c02.judge)(case, im, mo[:nreq])
+    base = (c01.judge if case['mode'] == '2d' else c02.judge)(case, im, mo[:nreq] + (mo[nreq + 1:] if case['mode'] == '3d' else []))
     tags = ['mode=' + case['mode']] + [t for t in base.get('tags', []) if t.startswith('nm=') or 'skipped' in t or t == 'refused']
     if 'exc' in im or not base.get('nontrivial') and ('singular-skipped' in base.get('tags', []) or 'refused' in base.get('tags', [])):
         keep = [x for x in base['fail'] if x.startswith('raised')] if 'refused' not in base.get('tags', []) else []
